@@ -2,6 +2,14 @@ mod tables;
 
 pub use tables::CLDR_VERSION;
 
+/// Verification hook (off unless built with `--cfg unic_locale_verif`): read-only access to
+/// the compiled lookup tables.
+#[cfg(unic_locale_verif)]
+#[doc(hidden)]
+pub mod verif_tables {
+    pub use super::tables::*;
+}
+
 use crate::subtags;
 
 unsafe fn lang_from_parts(
